@@ -13,11 +13,18 @@ structure ActiveInv (s : St) : Prop where
   le : s.base ≤ s.file.length
   entries : ∀ e ∈ s.saved ++ s.pending, EntryOk s.base s.ckpt e
   untouched : ∀ p, p < s.base → durablySaved s p = false → s.file[p]? = s.ckpt[p]?
+  leS : s.base ≤ s.synced.length
+  untouchedS : ∀ p, p < s.base → durablySaved s p = false → s.synced[p]? = s.ckpt[p]?
+
+/-- modes in which the journal says "the file is a checkpoint" -/
+def settled (m : Mode) : Prop := m = .done ∨ m = .dropped ∨ m = .emptied
 
 def Inv (s : St) : Prop :=
-  (s.mode = .active → ActiveInv s) ∧ (s.mode ≠ .active → s.file = s.ckpt)
+  (s.mode = .active → ActiveInv s) ∧ (s.mode ≠ .active → s.file = s.ckpt) ∧
+  (s.dirty = false → s.synced = s.file) ∧ (settled s.mode → s.dirty = false)
 
-theorem inv_init : Inv init := ⟨fun h => (by cases h), fun _ => rfl⟩
+theorem inv_init : Inv init :=
+  ⟨fun h => (by cases h), fun _ => rfl, fun _ => rfl, fun h => by rcases h with h | h | h <;> cases h⟩
 
 theorem writePage_length_ge (f : File) (p v : Nat) : f.length ≤ (writePage f p v).length := by
   unfold writePage; split
@@ -39,20 +46,25 @@ theorem any_fst_iff (l : List (Nat × Nat)) (p : Nat) :
   simp [List.any_eq_true]
 
 theorem step_inv (s : St) (e : Ev) (h : Inv s) (ha : allowed s e = true) : Inv (step s e) := by
-  obtain ⟨hact, hoth⟩ := h
+  obtain ⟨hact, hoth, hsyn, hset⟩ := h
   cases e with
   | start b =>
-    simp only [allowed, Bool.and_eq_true, beq_iff_eq] at ha
-    refine ⟨fun _ => ?_, fun hne => by simp [step] at hne⟩
-    have hb : b = s.file.length := ha.2
+    simp only [allowed, Bool.and_eq_true, beq_iff_eq, Bool.not_eq_true'] at ha
+    obtain ⟨⟨_, hb⟩, hd⟩ := ha
+    have hsf : s.synced = s.file := hsyn hd
+    refine ⟨fun _ => ?_, fun hne => by simp [step] at hne, by simpa [step] using hsyn,
+            fun hst => by rcases hst with h | h | h <;> simp [step] at h⟩
     exact { len := by simp [step, hb], le := by simp [step, hb],
             entries := by intro e he; simp [step] at he,
-            untouched := by intro p _ _; simp [step] }
+            untouched := by intro p _ _; simp [step],
+            leS := by simp [step, hb, hsf],
+            untouchedS := by intro p _ _; simp [step, hsf] }
   | save p =>
     simp only [allowed, Bool.and_eq_true, beq_iff_eq, decide_eq_true_eq, Bool.not_eq_true'] at ha
     obtain ⟨⟨hm, hp⟩, hj⟩ := ha
     have A := hact hm
-    refine ⟨fun _ => ?_, fun hne => by simp [step, hm] at hne⟩
+    refine ⟨fun _ => ?_, fun hne => by simp [step, hm] at hne, by simpa [step] using hsyn,
+            fun hst => by rcases hst with h | h | h <;> simp [step, hm] at h⟩
     have hds : durablySaved s p = false := by
       cases hd : durablySaved s p with
       | false => rfl
@@ -78,11 +90,21 @@ theorem step_inv (s : St) (e : Ev) (h : Inv s) (ha : allowed s e = true) : Inv (
           rw [← hfile]; simp [List.getD, hlt]
       untouched := by
         intro q hq hd
-        simpa [step] using A.untouched q hq (by simpa [step, durablySaved] using hd) }
+        simpa [step] using A.untouched q hq (by simpa [step, durablySaved] using hd)
+      leS := by simpa [step] using A.leS
+      untouchedS := by
+        intro q hq hd
+        simpa [step] using A.untouchedS q hq (by simpa [step, durablySaved] using hd) }
   | jsync =>
-    refine ⟨fun hm => ?_, fun hne => by simpa [step] using hoth (by simpa [step] using hne)⟩
+    refine ⟨fun hm => ?_, fun hne => by simpa [step] using hoth (by simpa [step] using hne),
+            by simpa [step] using hsyn, fun hst => by simpa [step] using hset (by simpa [step] using hst)⟩
     have hm' : s.mode = .active := by simpa [step] using hm
     have A := hact hm'
+    have weaker : ∀ q, durablySaved (step s .jsync) q = false → durablySaved s q = false := by
+      intro q hd
+      unfold durablySaved at *
+      simp only [step, List.any_append, Bool.or_eq_false_iff] at hd
+      exact hd.1
     exact {
       len := by simpa [step] using A.len
       le := by simpa [step] using A.le
@@ -92,15 +114,16 @@ theorem step_inv (s : St) (e : Ev) (h : Inv s) (ha : allowed s e = true) : Inv (
         exact A.entries e this
       untouched := by
         intro q hq hd
-        have hd' : durablySaved s q = false := by
-          unfold durablySaved at *
-          simp only [step, List.any_append, Bool.or_eq_false_iff] at hd
-          exact hd.1
-        simpa [step] using A.untouched q hq hd' }
+        simpa [step] using A.untouched q hq (weaker q hd)
+      leS := by simpa [step] using A.leS
+      untouchedS := by
+        intro q hq hd
+        simpa [step] using A.untouchedS q hq (weaker q hd) }
   | write p v =>
     simp only [allowed, Bool.or_eq_true, Bool.and_eq_true, beq_iff_eq, decide_eq_true_eq] at ha
     by_cases hf : s.mode = .fresh
-    · refine ⟨fun hm => by simp [step, hf] at hm, fun _ => by simp [step, hf]⟩
+    · refine ⟨fun hm => by simp [step, hf] at hm, fun _ => by simp [step, hf], fun hd => by simp [step, hf] at hd,
+              fun hst => by rcases hst with h | h | h <;> simp [step, hf] at h⟩
     · have hm : s.mode = .active := by
         rcases ha with ha | ha
         · exact absurd ha hf
@@ -110,10 +133,11 @@ theorem step_inv (s : St) (e : Ev) (h : Inv s) (ha : allowed s e = true) : Inv (
         · exact absurd ha hf
         · exact ha.2
       have A := hact hm
-      have hstep : step s (.write p v) = { s with file := writePage s.file p v } := by
+      have hstep : step s (.write p v) = { s with file := writePage s.file p v, dirty := true } := by
         simp [step, hm]
       rw [hstep]
-      refine ⟨fun _ => ?_, fun hne => by simp [hm] at hne⟩
+      refine ⟨fun _ => ?_, fun hne => by simp [hm] at hne, fun hd => by simp at hd,
+              fun hst => by rcases hst with h | h | h <;> simp [hm] at h⟩
       exact {
         len := A.len
         le := Nat.le_trans A.le (writePage_length_ge _ _ _)
@@ -128,16 +152,38 @@ theorem step_inv (s : St) (e : Ev) (h : Inv s) (ha : allowed s e = true) : Inv (
             · intro h; subst h; rw [hc] at hd'; cases hd'
           show (writePage s.file p v)[q]? = s.ckpt[q]?
           rw [writePage_getElem?_ne _ _ _ _ (Nat.lt_of_lt_of_le hq A.le) hne]
-          exact A.untouched q hq hd' }
+          exact A.untouched q hq hd'
+        leS := A.leS
+        untouchedS := A.untouchedS }
+  | dsync =>
+    refine ⟨fun hm => ?_, fun hne => by simpa [step] using hoth (by simpa [step] using hne),
+            fun _ => by simp [step], fun _ => by simp [step]⟩
+    have hm' : s.mode = .active := by simpa [step] using hm
+    have A := hact hm'
+    exact {
+      len := by simpa [step] using A.len
+      le := by simpa [step] using A.le
+      entries := by intro e he; exact A.entries e (by simpa [step] using he)
+      untouched := by
+        intro q hq hd
+        simpa [step] using A.untouched q hq (by simpa [step, durablySaved] using hd)
+      leS := by simpa [step] using A.le
+      untouchedS := by
+        intro q hq hd
+        simpa [step] using A.untouched q hq (by simpa [step, durablySaved] using hd) }
   | done =>
-    refine ⟨fun hm => by simp [step] at hm, fun _ => by simp [step]⟩
+    simp only [allowed, Bool.and_eq_true, beq_iff_eq, Bool.not_eq_true'] at ha
+    refine ⟨fun hm => by simp [step] at hm, fun _ => by simp [step], by simpa [step] using hsyn,
+            fun _ => by simpa [step] using ha.2⟩
   | dropLog =>
     simp only [allowed, beq_iff_eq] at ha
-    refine ⟨fun hm => by simp [step] at hm, fun _ => ?_⟩
+    refine ⟨fun hm => by simp [step] at hm, fun _ => ?_, by simpa [step] using hsyn,
+            fun _ => by simpa [step] using hset (Or.inl ha)⟩
     simpa [step] using hoth (by simp [ha])
   | empty =>
     simp only [allowed, beq_iff_eq] at ha
-    refine ⟨fun hm => by simp [step] at hm, fun _ => ?_⟩
+    refine ⟨fun hm => by simp [step] at hm, fun _ => ?_, by simpa [step] using hsyn,
+            fun _ => by simpa [step] using hset (Or.inr (Or.inl ha))⟩
     simpa [step] using hoth (by simp [ha])
 
 theorem run_inv : ∀ (es : List Ev) (s s' : St), Inv s → run s es = some s' → Inv s'
@@ -180,7 +226,7 @@ theorem copy_back (base : Nat) (ckpt : File) :
         · exact h
 
 theorem restore_of_inv (s : St) (h : Inv s) (k : Nat) : restore s k = s.ckpt := by
-  obtain ⟨hact, hoth⟩ := h
+  obtain ⟨hact, hoth, _, _⟩ := h
   by_cases hm : s.mode = .active
   · have A := hact hm
     have hsub : ∀ e ∈ s.saved ++ s.pending.take k, e ∈ s.saved ++ s.pending := by
@@ -208,5 +254,68 @@ theorem restore_of_inv (s : St) (h : Inv s) (k : Nat) : restore s k = s.ckpt := 
       unfold restore
       cases hmm : s.mode <;> simp_all
     rw [this]; exact hoth hm
+
+theorem getElem?_isSome_lt {α : Type} (l : List α) (p : Nat) (a : α) (h : l[p]? = some a) : p < l.length := by
+  by_cases hp : p < l.length
+  · exact hp
+  · rw [List.getElem?_eq_none (Nat.le_of_not_lt hp)] at h; cases h
+
+/-- crash model B: the crash image of the database file may have lost any of the writes since the file's last fsync -/
+theorem restoreFrom_of_inv (s : St) (h : Inv s) (hnf : s.mode ≠ .fresh) (g : File) (hg : CrashImage s g) (k : Nat) :
+    restoreFrom s g k = s.ckpt := by
+  obtain ⟨hact, hoth, hsyn, hset⟩ := h
+  by_cases hm : s.mode = .active
+  · have A := hact hm
+    have hsub : ∀ e ∈ s.saved ++ s.pending.take k, e ∈ s.saved ++ s.pending := by
+      intro e he
+      rcases List.mem_append.mp he with h1 | h1
+      · exact List.mem_append.mpr (Or.inl h1)
+      · exact List.mem_append.mpr (Or.inr (List.mem_of_mem_take h1))
+    -- every checkpointed page is present in the crash image
+    have hsome : ∀ p, p < s.base → p < g.length := by
+      intro p hp
+      have h1 : p < s.file.length := Nat.lt_of_lt_of_le hp A.le
+      have h2 : p < s.synced.length := Nat.lt_of_lt_of_le hp A.leS
+      rcases hg p with hgp | hgp
+      · rw [List.getElem?_eq_getElem h1] at hgp; exact getElem?_isSome_lt g p _ hgp
+      · rw [List.getElem?_eq_getElem h2] at hgp; exact getElem?_isSome_lt g p _ hgp
+    have hle : s.base ≤ g.length := by
+      cases hb : s.base with
+      | zero => exact Nat.zero_le _
+      | succ n => have := hsome n (by omega); omega
+    have hcb := copy_back s.base s.ckpt (s.saved ++ s.pending.take k) g hle
+      (fun e he => A.entries e (hsub e he))
+      (fun p hp => by
+        cases hd : durablySaved s p with
+        | false =>
+          right
+          rcases hg p with hgp | hgp
+          · rw [hgp]; exact A.untouched p hp hd
+          · rw [hgp]; exact A.untouchedS p hp hd
+        | true =>
+          left
+          obtain ⟨e, he, hpe⟩ := (any_fst_iff s.saved p).mp hd
+          exact ⟨e, List.mem_append.mpr (Or.inl he), hpe⟩)
+    simp only [restoreFrom, hm]
+    apply List.ext_getElem?
+    intro p
+    by_cases hp : p < s.base
+    · rw [List.getElem?_take_of_lt hp]; exact hcb.2 p hp
+    · have hp' : s.base ≤ p := Nat.le_of_not_lt hp
+      rw [List.getElem?_eq_none (by simp; omega), List.getElem?_eq_none (by rw [A.len]; exact hp')]
+  · have hst : settled s.mode := by
+      unfold settled
+      cases hmm : s.mode <;> simp_all
+    have hsf : s.synced = s.file := hsyn (hset hst)
+    have hgf : g = s.file := by
+      apply List.ext_getElem?
+      intro p
+      rcases hg p with hgp | hgp
+      · exact hgp
+      · rw [hgp, hsf]
+    have : restoreFrom s g k = g := by
+      unfold restoreFrom
+      cases hmm : s.mode <;> simp_all
+    rw [this, hgf]; exact hoth hm
 
 end AxVerif.Journal
